@@ -18,6 +18,15 @@ Proof. exact gen_oneof_always. Qed.
 Theorem C08_oneof_enum_always : forall s slot f sl always sl2 num,
   gen_field_encode s slot f = GOk (EOneof sl (EEnum always sl2 num)) -> always = true.
 Proof. exact gen_oneof_enum_always. Qed.
+(* ... a message member held by value (always_present type or field) is never written by the omit-when-empty writer
+   (it was before the repair D14), but by AlwaysMessage, which frames even an empty message ... *)
+Theorem C08_oneof_message_never_omitted : forall s slot f sl sl2 num idx,
+  gen_field_encode s slot f <> GOk (EOneof sl (EMsgPresent sl2 num idx)).
+Proof. exact gen_oneof_never_present. Qed.
+Theorem C08_always_message_emits : forall field fn buf p ok,
+  valid_number field = true -> len_ok p -> (forall b, fn b = Ok (b ++ p, ok)) ->
+  enc_always_message field fn buf = Ok (buf ++ spec_ld field p).
+Proof. exact enc_always_message_spec. Qed.
 (* ... and an Always writer emits the field whatever the value *)
 Theorem C08_always_emits : forall k num v buf, scalar_ok k v = true -> valid_number num = true ->
   enc_single k true num v buf = buf ++ spec_field k num v.
@@ -46,6 +55,8 @@ Proof. split; vm_compute; reflexivity. Qed.
 Print Assumptions C08_optional_always.
 Print Assumptions C08_oneof_always.
 Print Assumptions C08_oneof_enum_always.
+Print Assumptions C08_oneof_message_never_omitted.
+Print Assumptions C08_always_message_emits.
 Print Assumptions C08_always_emits.
 Print Assumptions C08_message_presence.
 Print Assumptions C08_presence_round_trip.
